@@ -1,7 +1,8 @@
 /-
 C09 — declarative side.  What the property says about ONE observed step, phrased over what
 can be read back from the chain (per scope: existence, `GetScopeValueOwner`, the bank's
-holders and supply of the scope denom; the authz grants and marker permissions in force),
+holders and supply of the scope denom; the authz grants with their remaining uses, the marker
+permissions in force and the markers' lifecycle status),
 independent of the model's control flow.  `stepClause` is the checker the driver runs on
 the implementation's dumps; `PvProofs.C09.step_ok` proves it never fires on the model.
 
@@ -124,6 +125,38 @@ def depositOne (pre : Obs) (st : StepInfo) (o' : ScopeObs) : Bool :=
   let h' := holderOf o'
   h = h' || (match h' with | some b => depositAuthorised pre st b | none => true)
 
+/-! ### Clause 2b: consent through an authz grant costs one of its uses
+
+"their authz grant to a signer": a count-limited grant (`CountAuthorization`) authorises as many
+value-owner changes as it has uses.  So when a token leaves a holder who neither signs nor is a
+marker — only an authz grant of the holder to a signer can have authorised that — and every
+grant the holder has given to a signer for this message type is count-limited, then one of them
+has fewer uses afterwards (or is gone).  With this clause on every accepted message a grant for
+one use authorises one change: the second message finds no grant and `owner_change_without_consent`
+applies. -/
+
+/-- the count-limited grant `g` has been used: it is gone, or has fewer uses left -/
+def usedUp (post : List Grant) (g : Grant) : Bool :=
+  match lookupGrant post g.grantee g.granter g.mt with
+  | none => true
+  | some g' => g'.count != 0 && g'.count < g.count
+
+/-- the grants in force from `h` to the step's signers for message type `mt` -/
+def grantsTo (pre : List Grant) (signers : List Addr) (h : Addr) (mt : MsgType) : List Grant :=
+  signers.filterMap fun sg => lookupGrant pre sg h mt
+
+def grantUseOne (pre : Obs) (st : StepInfo) (post : Obs) (o' : ScopeObs) : Bool :=
+  match st.kind with
+  | .msg mt =>
+    let h := preHolder pre o'.id
+    h = holderOf o' ||
+    (match h with
+     | none => true
+     | some a =>
+       st.signers.contains a || (pre.markers.find? (·.addr = a)).isSome ||
+       (grantsTo pre.grants st.signers a mt).any fun g => g.count = 0 || usedUp post.grants g)
+  | _ => true
+
 /-! ### Clause 3: deleting destroys the token; a rejected message changes nothing -/
 
 def deleteOne (st : StepInfo) (o' : ScopeObs) : Bool :=
@@ -139,6 +172,7 @@ def stepClause (pre : Obs) (st : StepInfo) (post : Obs) : Option String :=
     if !rejectOk pre st post then some "rejected_message_changed_state"
     else if !post.scopes.all (consentOne pre st) then some "owner_change_without_consent"
     else if !post.scopes.all (depositOne pre st) then some "deposit_without_permission"
+    else if !post.scopes.all (grantUseOne pre st post) then some "authz_grant_not_used_up"
     else if !post.scopes.all (deleteOne st) then some "delete_left_token"
     else none
 
@@ -174,5 +208,6 @@ def stepInfo (op : Op) (accepted : Bool) : StepInfo :=
   | .grant .. => { kind := .env, signers := [], accepted }
   | .revoke .. => { kind := .env, signers := [], accepted }
   | .access .. => { kind := .env, signers := [], accepted }
+  | .mstatus .. => { kind := .env, signers := [], accepted }
 
 end PvModel.Vowner
